@@ -529,6 +529,102 @@ func runMachine(t *rapid.T, seed []byte) (w *world) {
 			w.flags["replayed-sniffed-verify"] = true
 			w.dropAttacker(i)
 		},
+		"attacker-floods-starts-during-legit-verify": func(t *rapid.T) {
+			// interleaving: the attacker sends pair-verify start requests on its own connections while the
+			// legitimate controller runs its pair-verify; afterwards requests sealed under the keys of the
+			// attacker's own (unfinished) exchanges must not be served
+			if rapid.IntRange(0, 2).Draw(t, "rarely") > 0 {
+				t.Skip("kept rare")
+			}
+			note("attackers send pair-verify start requests while L verifies on a new connection")
+			before := w.snap()
+			if w.lconn != nil {
+				w.lconn.Close()
+				w.lconn = nil
+				w.lVerifiedNow = false
+			}
+			nflood := 3
+			type res struct {
+				cl *refctl.Client
+				vs *refctl.VerifyState
+			}
+			out := make(chan res, nflood)
+			stop := make(chan struct{})
+			for f := 0; f < nflood; f++ {
+				go func(f int) {
+					cl, err := refctl.Dial(w.acc.Addr)
+					if err != nil {
+						out <- res{}
+						return
+					}
+					cl.Timeout = 8 * time.Second
+					var last *refctl.VerifyState
+					for i := 0; ; i++ {
+						select {
+						case <-stop:
+							out <- res{cl, last}
+							return
+						default:
+						}
+						v := refctl.NewVerifyState([]byte{byte(f), byte(i), byte(i >> 8), 77, byte(w.nonce)})
+						r, err := cl.Do("POST", "/pair-verify", refctl.ContentTLV8, refctl.VerifyM1(v.EphPublic))
+						if err != nil {
+							out <- res{cl, last}
+							return
+						}
+						if r.Status == 200 {
+							if m2, perr := v.HandleVerifyM2(r.Body, w.accLTPK); perr == nil && !m2.HasError {
+								last = v
+							}
+						}
+					}
+				}(f)
+			}
+			lerr := w.legitEnsure()
+			for i := 0; i < 3 && lerr == nil; i++ { // a few reconnects widen the window
+				w.lconn.Close()
+				w.lconn = nil
+				lerr = w.legitEnsure()
+			}
+			close(stop)
+			var got []res
+			for f := 0; f < nflood; f++ {
+				got = append(got, <-out)
+			}
+			checkErr(t, w, lerr)
+			aid, text, _, _, _, _ := w.ids()
+			for _, g := range got {
+				if g.cl == nil {
+					continue
+				}
+				if g.vs != nil && g.vs.Shared != nil {
+					a2c, c2a := refctl.SessionKeys(g.vs.Shared)
+					sealer := &refctl.Sealer{Key: c2a}
+					var wire []byte
+					for _, fr := range sealer.SealMessage(refctl.BuildRequest("GET", fmt.Sprintf("/characteristics?id=%d.%d", aid, text), "", nil), nil) {
+						wire = append(wire, fr...)
+					}
+					g.cl.SendPlainBytes(wire)
+					raw, _ := g.cl.ReadRawIdle(120 * time.Millisecond)
+					what := "connection that only sent pair-verify start requests (while a controller verified elsewhere), request sealed under its own exchange keys"
+					if d := discloses(raw); d != "" {
+						checkErr(t, w, fmt.Errorf("%s: the reply discloses %q", what, d))
+					}
+					op := &refctl.Opener{Key: a2c}
+					if plain, _, oerr := op.OpenAll(raw); oerr == nil && len(plain) > 0 {
+						rs, _ := refctl.ParseResponses(plain)
+						for _, r := range rs {
+							if r.Status < 400 || discloses(r.Body) != "" {
+								checkErr(t, w, fmt.Errorf("%s: served with an encrypted HTTP %d reply (%.80q)", what, r.Status, r.Body))
+							}
+						}
+					}
+				}
+				g.cl.Close()
+			}
+			checkErr(t, w, w.unchanged(before, "start-request flood during a legitimate pair-verify"))
+			w.flags["flood-during-legit-verify"] = true
+		},
 		"attacker-close": func(t *rapid.T) {
 			i := pick()
 			note(fmt.Sprintf("att%d close", i))
